@@ -19,6 +19,7 @@ class Result:
         self.not_decided = []
         self.notes = []
         self.floors = []  # (rule, expected_min, got)
+        self.deficits = []
         self.extra = {}
 
     def rule(self, rid, text):
@@ -46,8 +47,9 @@ class Result:
             got = sum(1 for o in self.obligations if o["rule"] == rule)
         self.floors.append((rule, expected_min, got))
         if got < expected_min:
-            raise Broken("%s %s: %d rule instance(s) found, floor confirmed by hand is %d — anchor vanished or "
-                         "code restructured; re-derive the rule" % (self.prop, rule, got, expected_min))
+            # deferred: reported as analysis-broken (exit 2) unless a violation was found, which is real either way
+            self.deficits.append("%s %s: %d rule instance(s) found, floor confirmed by hand is %d — anchor vanished or "
+                                 "code restructured; re-derive the rule" % (self.prop, rule, got, expected_min))
 
     def count(self, rule):
         return sum(1 for o in self.obligations if o["rule"] == rule)
@@ -146,4 +148,10 @@ def finish(res, tier, seed, t0, meta, level="other", selftest=None, extra_cov=No
         json.dump(ev, fh, indent=1)
     print("%s: %d obligations, %d discharged, %d known finding(s), %d violation(s) [%s, %.1fs]" %
           (prop, n, good, len(listed), len(unlisted), tier, time.time() - t0))
-    return 1 if unlisted else 0
+    if unlisted:
+        return 1
+    if res.deficits:
+        for d in res.deficits:
+            print("ANALYSIS-BROKEN property=%s: %s" % (prop, d))
+        return 2
+    return 0
